@@ -20,13 +20,14 @@ EXTENDS Integers, Sequences, FiniteSets, TLC, Json
 CONSTANT WithInject      \* FALSE: conforming programs only; TRUE: also one injection per program
 VARIABLES phase, f1, f2, f3, lay, mainseq, inj
 vars == <<phase, f1, f2, f3, lay, mainseq, inj>>
+\* inj = <<kind, function, variant>>
 
 L(t, g) == [t |-> t, g |-> g]
 I(t, g) == L("    " \o t, g)
 S(n) == ToString(n)
 
 \* ------------------------------------------------------------------ leaf templates (arity, returns)
-Leaves == {"add2", "sumloop", "sign", "print", "local"}
+Leaves == {"add2", "sumloop", "sign", "print", "local", "bytes", "counted"}
 Arity(k) == CASE k = "add2" -> 2 [] k \in {"wrap", "rec", "twice"} -> (IF k = "twice" THEN 2 ELSE 1) [] OTHER -> 1
 Returns(k) == k # "print"
 
@@ -41,6 +42,13 @@ Leaf(n, k) ==
            L(n \o "_z:", ""), I("li a0, 2", ""), L(n \o "_e:", ""), I("ret", n \o ":ret") >>
     [] k = "print" ->
         << L(n \o ":", n \o ":label"), I("li a7, 1", n \o ":first"), I("ecall", n \o ":ecall"), I("ret", n \o ":ret") >>
+    [] k = "bytes" ->     \* sub-word locals directly below / next to a saved register's slot
+        << L(n \o ":", n \o ":label"), I("addi sp, sp, -16", n \o ":first"), I("sw s0, 8(sp)", ""), I("mv s0, a0", ""),
+           I("sb a0, 7(sp)", ""), I("sh a0, 4(sp)", ""), I("sb a0, 12(sp)", ""), I("lbu t0, 7(sp)", ""), I("lh t1, 4(sp)", ""),
+           I("add t0, t0, t1", ""), I("add a0, t0, s0", n \o ":retval"), I("lw s0, 8(sp)", ""), I("addi sp, sp, 16", n \o ":free"), I("ret", n \o ":ret") >>
+    [] k = "counted" ->   \* the result is set before a loop that does not touch it
+        << L(n \o ":", n \o ":label"), I("mv t1, a0", n \o ":first"), I("li a0, 1", ""), L(n \o "_loop:", ""), I("addi t1, t1, -1", ""),
+           I("bnez t1, " \o n \o "_loop", ""), I("ret", n \o ":ret") >>
     [] k = "local" ->
         << L(n \o ":", n \o ":label"), I("addi sp, sp, -8", n \o ":first"), I("sw a0, 4(sp)", ""), I("lw t0, 4(sp)", ""),
            I("addi sp, sp, 8", n \o ":free"), I("slli a0, t0, 1", n \o ":retval"), I("ret", n \o ":ret") >>
@@ -77,7 +85,11 @@ CallBlock(fn, kind, c, i) ==
   << I("li a0, " \o S(c), "main:arg" \o S(i)) >>
   \o (IF Arity(kind) = 2 THEN << I("li a1, " \o S(c + 1), "") >> ELSE <<>>)
   \o << I("call " \o fn, "main:call" \o S(i)) >>
-  \o (IF Returns(kind) THEN << I("li a7, 1", "main:a7-" \o S(i)), I("ecall", "main:print" \o S(i)) >> ELSE <<>>)
+  \o (IF Returns(kind)
+        THEN (IF c = 4       \* the result is first read by an ordinary instruction
+                THEN << I("mv t0, a0", ""), I("add a0, t0, t0", "") >> ELSE <<>>)
+             \o << I("li a7, 1", "main:a7-" \o S(i)), I("ecall", "main:print" \o S(i)) >>
+        ELSE <<>>)
 
 RECURSIVE Blocks(_, _, _)
 Blocks(seq, kinds, i) ==
@@ -112,7 +124,7 @@ InjKinds == {"saved-not-restored", "sp-not-restored", "ra-not-restored", "temp-a
              "fall-through-into-function", "function-first-in-program"}
 
 \* Inject(p, kind, fn) = [ok, prog, exp] ; fn is the function the injection goes into ("F1" / "F2")
-Inject(p, kind, fn) ==
+Inject(p, kind, fn, var) ==
   LET no == [ok |-> FALSE, prog |-> p, exp |-> E({}, "", -1)]
       yes(q, e) == [ok |-> TRUE, prog |-> q, exp |-> e]
       t(x) == fn \o ":" \o x
@@ -129,17 +141,28 @@ Inject(p, kind, fn) ==
           ELSE no
     [] kind = "temp-after-call" ->
         IF Has(p, t("after-call")) /\ Has(p, t("before-call"))
-          THEN yes(InsAfter(Repl(p, Idx(p, t("after-call")), I("add a0, a0, t1", "inj")), Idx(p, t("before-call")) - 1, << I("li t1, 5", "") >>),
-                   E({"invalid-use-after-call"}, "inj", 6))
+          THEN (IF var = 1
+                  THEN yes(InsAfter(Repl(p, Idx(p, t("after-call")), I("add a0, a0, t1", "inj")), Idx(p, t("before-call")) - 1, << I("li t1, 5", "") >>),
+                           E({"invalid-use-after-call"}, "inj", 6))
+                ELSE IF var = 2     \* the offending read is a read-modify-write of the same register
+                  THEN yes(InsAfter(InsAfter(p, Idx(p, t("after-call")) - 1, << I("addi t1, t1, 1", "inj") >>), Idx(p, t("before-call")) - 1, << I("li t1, 5", "") >>),
+                           E({"invalid-use-after-call"}, "inj", 6))
+                ELSE yes(InsAfter(InsAfter(p, Idx(p, t("after-call")) - 1, << I("sw t3, -4(sp)", "inj") >>), Idx(p, t("before-call")) - 1, << I("li t3, 5", "") >>),
+                         E({"invalid-use-after-call"}, "inj", 28)))
           ELSE no
     [] kind = "never-assigned-in-function" ->
-        IF Has(p, t("first")) /\ fn = "F1" THEN yes(InsAfter(p, Idx(p, t("label")), << I("add a0, a0, t4", "inj") >>), E({"invalid-use-before-assignment"}, "inj", 29)) ELSE no
+        IF Has(p, t("first")) /\ fn = "F1"
+          THEN yes(InsAfter(p, Idx(p, t("label")), << I(CASE var = 1 -> "add a0, a0, t4" [] var = 2 -> "addi t4, t4, 1" [] OTHER -> "bnez t4, " \o fn \o "_nowhere", "inj") >>
+                            \o (IF var = 3 THEN << L(fn \o "_nowhere:", "") >> ELSE <<>>)),
+                   E({"invalid-use-before-assignment"}, "inj", 29))
+          ELSE no
     [] kind = "never-assigned-in-main" ->
-        IF fn = "F1" THEN yes(InsAfter(p, Idx(p, "main:arg1"), << I("add a0, a0, t4", "inj") >>), E({"invalid-use-before-assignment"}, "inj", 29)) ELSE no
+        IF fn = "F1" THEN yes(InsAfter(p, Idx(p, "main:arg1"), << I(CASE var = 1 -> "add a0, a0, t4" [] var = 2 -> "addi t4, t4, 1" [] OTHER -> "sw t4, -4(sp)", "inj") >>),
+                              E({"invalid-use-before-assignment"}, "inj", 29)) ELSE no
     [] kind = "unused-assignment" ->
-        IF Has(p, t("ret")) THEN yes(InsAfter(p, Idx(p, t("ret")) - 1, << I("li t2, 9", "inj") >>), E({"dead-assignment"}, "inj", 7)) ELSE no
+        IF Has(p, t("ret")) THEN yes(InsAfter(p, Idx(p, t("ret")) - 1, << I(CASE var = 1 -> "li t2, 9" [] var = 2 -> "mv t2, a0" [] OTHER -> "slli t2, a0, 3", "inj") >>), E({"dead-assignment"}, "inj", 7)) ELSE no
     [] kind = "write-to-zero" ->
-        IF Has(p, t("ret")) THEN yes(InsAfter(p, Idx(p, t("ret")) - 1, << I("add zero, a0, a0", "inj") >>), E({"save-to-zero"}, "inj", 0)) ELSE no
+        IF Has(p, t("ret")) THEN yes(InsAfter(p, Idx(p, t("ret")) - 1, << I(CASE var = 1 -> "add zero, a0, a0" [] var = 2 -> "li zero, 5" [] OTHER -> "addi zero, zero, 1", "inj") >>), E({"save-to-zero"}, "inj", 0)) ELSE no
     [] kind = "stack-at-entry-sp" ->
         IF Has(p, t("ret")) /\ ~Has(p, t("free")) THEN yes(InsAfter(p, Idx(p, t("label")), << I("sw a0, 0(sp)", "inj") >>), E({"invalid-stack-offset-usage"}, "inj", -1)) ELSE no
     [] kind = "stack-above-entry-sp" ->
@@ -174,9 +197,9 @@ LineOfTag(p, tag) == IF Has(p, tag) THEN Idx(p, tag) - 1 ELSE -1
 
 \* ------------------------------------------------------------------ state machine
 MainSeqs == UNION { [1..n -> (1..3) \X {2, 4}] : n \in 1..3 }
-Init == phase = "start" /\ f1 = "" /\ f2 = "" /\ f3 = "" /\ lay = <<16, 12, 8, 4>> /\ mainseq = <<>> /\ inj = <<"", "">>
+Init == phase = "start" /\ f1 = "" /\ f2 = "" /\ f3 = "" /\ lay = <<16, 12, 8, 4>> /\ mainseq = <<>> /\ inj = <<"", "", 1>>
 PickFns == /\ phase = "start"
-           /\ \E a \in {"sumloop", "sign", "local"}, b \in {"wrap", "rec", "twice"}, c \in Leaves \cup {"none"}, ly \in Layouts :
+           /\ \E a \in {"sumloop", "sign", "local", "bytes", "counted"}, b \in {"wrap", "rec", "twice"}, c \in Leaves \cup {"none"}, ly \in Layouts :
                 f1' = a /\ f2' = b /\ f3' = c /\ lay' = ly
            /\ phase' = "main" /\ UNCHANGED <<mainseq, inj>>
 PickMain == /\ phase = "main"
@@ -187,15 +210,15 @@ PickMain == /\ phase = "main"
                  /\ mainseq' = ms
             /\ phase' = (IF WithInject THEN "inject" ELSE "emit") /\ UNCHANGED <<f1, f2, f3, lay, inj>>
 PickInj == /\ phase = "inject"
-           /\ \E k \in InjKinds, fn \in {"F1", "F2"} :
-                /\ Inject(Program(f1, f2, f3, lay, mainseq), k, fn).ok
-                /\ inj' = <<k, fn>>
+           /\ \E k \in InjKinds, fn \in {"F1", "F2"}, v \in 1..3 :
+                /\ Inject(Program(f1, f2, f3, lay, mainseq), k, fn, v).ok
+                /\ inj' = <<k, fn, v>>
            /\ phase' = "emit" /\ UNCHANGED <<f1, f2, f3, lay, mainseq>>
 Emit == /\ phase = "emit"
         /\ LET base == Program(f1, f2, f3, lay, mainseq)
-               r == IF WithInject THEN Inject(base, inj[1], inj[2]) ELSE [ok |-> TRUE, prog |-> base, exp |-> E({}, "", -1)]
+               r == IF WithInject THEN Inject(base, inj[1], inj[2], inj[3]) ELSE [ok |-> TRUE, prog |-> base, exp |-> E({}, "", -1)]
            IN PrintT("CASE " \o ToJson([text |-> TextOf(r.prog, 1), f1 |-> f1, f2 |-> f2, f3 |-> f3, lay |-> lay,
-                                        nmain |-> Len(mainseq), inj |-> inj[1], fn |-> inj[2],
+                                        nmain |-> Len(mainseq), inj |-> inj[1], fn |-> inj[2], variant |-> inj[3],
                                         codes |-> r.exp.codes, line |-> LineOfTag(r.prog, r.exp.tag),
                                         alt |-> LineOfTag(r.prog, r.exp.alt), reg |-> r.exp.reg]))
         /\ phase' = "done" /\ UNCHANGED <<f1, f2, f3, lay, mainseq, inj>>
